@@ -755,6 +755,8 @@ func runC01(c *Ctx) {
 	}
 	ParallelFor(len(cases), c.Work, func(i int) { checkCase(c, cases[i], alts[i]) })
 
+	arbitraryFrameInfo(c)
+
 	if os.Getenv("VERIF_RLE_GIANT") != "" {
 		giant(c)
 	}
@@ -795,4 +797,90 @@ func giant(c *Ctx) {
 		c.R.Fail("oracle", "rle_roundtrip_giant", "rle:roundtrip-offset32:"+g.class(),
 			fmt.Sprintf("encoded frame of %d bytes: segment offsets beyond 2^32 are stored modulo 2^32; Decode -> %s, first difference at %d", len(enc), dcl, firstDiff(dec, frame)), in)
 	}
+}
+
+// arbitraryFrameInfo: correspondence of decodeFrame with the panic-explicit model
+// rle_decode_frame (op rle_decode_fi) for FrameInfo values outside the accepted domain:
+// BitsAllocated 0 (uint16 wrap: 8192 bytes per sample), odd bit counts, SamplesPerPixel 0..16,
+// PlanarConfiguration 0..3, zero dimensions, and sizes beyond makeslice's limit (panic).
+// Only frame sizes <= 64 MiB or > 2^48 are generated (in between the Go runtime would
+// really try to allocate). Correspondence only; the property itself says nothing here.
+func arbitraryFrameInfo(c *Ctx) {
+	if !c.HasModel() {
+		return
+	}
+	r := c.Rng.Fork()
+	n := c.N(400, 4000)
+	type fic struct {
+		rows, cols, bits, spp, planar int
+		stream                        []byte
+		what                          string
+	}
+	var cs []fic
+	bitsPool := []int{0, 1, 7, 8, 9, 12, 15, 16, 17, 24, 32, 33, 40, 64, 120, 121, 128, 255, 256, 65535}
+	for i := 0; i < n; i++ {
+		k := fic{rows: r.Range(0, 12), cols: r.Range(0, 12), bits: bitsPool[r.Intn(len(bitsPool))],
+			spp: r.Pick(0, 1, 1, 2, 3, 3, 4, 5, 15, 16), planar: r.Pick(0, 0, 1, 1, 2, 3)}
+		if r.Intn(12) == 0 { // beyond maxAlloc: makeslice panic
+			k.rows, k.cols, k.bits, k.spp = 65535, 65535, 0, r.Pick(65535, 40000, 30000)
+		}
+		ba := int(uint16(uint16(k.bits-1)/8 + 1))
+		fs := ba * k.spp * k.rows * k.cols
+		if fs > 64<<20 && !(float64(ba)*float64(k.spp)*float64(k.rows)*float64(k.cols) > 3e14) {
+			k.rows, k.cols = 1, 1
+		}
+		// a stream: valid for a nearby accepted geometry, or mutated, or junk
+		g := geo{rows: max(k.rows, 1), cols: max(k.cols, 1), bits: []int{8, 16, 32}[r.Intn(3)], spp: r.Pick(1, 3), planar: k.planar & 1}
+		if ba >= 1 && ba <= 4 && r.Intn(3) != 0 {
+			g.bits = ba * 8
+			if k.spp >= 1 && k.spp <= 3 {
+				g.spp = k.spp
+			}
+		}
+		fr, _ := genRuns(r, g.flen())
+		_, enc := implEncode(g, fr)
+		k.what = "own"
+		switch r.Intn(4) {
+		case 0:
+			enc, k.what = mutate(r, enc)
+		case 1:
+			enc = append([]byte(nil), enc...)
+			enc[0] = byte(ba * k.spp) // make the count agree with the FrameInfo when it fits a byte
+			k.what = "count=planes"
+		case 2:
+			if r.Intn(4) == 0 {
+				enc = enc[:r.Intn(64)]
+				k.what = "short"
+			}
+		}
+		k.stream = enc
+		cs = append(cs, k)
+	}
+	ParallelFor(len(cs), c.Work, func(i int) {
+		k := cs[i]
+		fi := &imagetypes.FrameInfo{Width: uint16(k.cols), Height: uint16(k.rows), BitsAllocated: uint16(k.bits),
+			BitsStored: uint16(k.bits), HighBit: uint16(k.bits - 1), SamplesPerPixel: uint16(k.spp),
+			PlanarConfiguration: uint16(k.planar), PhotometricInterpretation: "MONOCHROME2"}
+		var out []byte
+		var err error
+		class := "ok"
+		p, _ := Safely(func() {
+			src := codec.NewTestPixelData(fi)
+			_ = src.AddFrame(k.stream)
+			dst := codec.NewTestPixelData(fi)
+			err = rlecodec.NewRLECodec().Decode(src, dst, nil)
+			if err == nil {
+				out, _ = dst.GetFrame(0)
+			}
+		})
+		if p {
+			class = "panic"
+		} else if err != nil {
+			class = "err"
+		}
+		c.R.Case(fmt.Sprintf("rle:fi:%d", i), false, "rle.fi."+class)
+		m := c.M.Call("rle_decode_fi", fmt.Sprint(k.rows), fmt.Sprint(k.cols), fmt.Sprint(k.bits), fmt.Sprint(k.spp), fmt.Sprint(k.planar), Hex(k.stream))
+		c.CorrEq("rle_decode_frameinfo", fmt.Sprintf("rle:decode-fi:bits=%d:spp=%d:planar=%d", k.bits, k.spp, k.planar), m, outcomeStr(class, out),
+			map[string]interface{}{"rows": k.rows, "cols": k.cols, "bitsAllocated": k.bits, "spp": k.spp, "planar": k.planar, "stream": clipHex(k.stream), "stream_kind": k.what})
+	})
 }
